@@ -618,13 +618,42 @@ func replaceFunc(arg1, arg2, arg3 query) func(query, iterator) interface{} {
 			panic(fmt.Errorf("replace() function second argument is not a valid regexp pattern, err: %s", err.Error()))
 		}
 
-		// replace all $i to ${i} for golang regexp.Expand
-		for idx := e.NumSubexp(); idx > 0; idx-- {
-			dst = strings.ReplaceAll(dst, fmt.Sprintf("$%d", idx), fmt.Sprintf("${%d}", idx))
-		}
-
-		return e.ReplaceAllString(str, dst)
+		return e.ReplaceAllString(str, xpathReplacement(dst, e.NumSubexp()))
 	}
+}
+
+// xpathReplacement rewrites the group references of an XPath replacement string for
+// regexp.Expand: $n, n being the longest digit string that names one of the pattern's groups,
+// becomes ${n}, so that the characters after it are not taken for part of a name. It reads the
+// string once, left to right, the way Expand does: "$$" is a literal dollar and stays.
+func xpathReplacement(s string, groups int) string {
+	var sb strings.Builder
+	for i := 0; i < len(s); i++ {
+		if s[i] != '$' {
+			sb.WriteByte(s[i])
+			continue
+		}
+		if i+1 < len(s) && s[i+1] == '$' {
+			sb.WriteString("$$")
+			i++
+			continue
+		}
+		end := i + 1
+		if end < len(s) && s[end] != '0' {
+			for n := 0; end < len(s) && s[end] >= '0' && s[end] <= '9'; end++ {
+				if n = n*10 + int(s[end]-'0'); n > groups {
+					break
+				}
+			}
+		}
+		if end > i+1 {
+			sb.WriteString("${" + s[i+1:end] + "}")
+			i = end - 1
+			continue
+		}
+		sb.WriteByte('$')
+	}
+	return sb.String()
 }
 
 // notFunc is XPATH functions not(expression) function operation.
